@@ -178,6 +178,23 @@ func entries() []entry {
 	return es
 }
 
+// ownPath: the engine model does not speak about this schema's nil path — discriminated union and lazy have a private
+// one, and Record's pointer variants (after Optional/Nilable/Nullish) fail every Parse in a type-local conversion
+// (known finding record:pointer-variant-conversion). Such cases are judged by the specification only.
+func ownPath(e *entry, h []string) bool {
+	if e.name == "du" || e.name == "lazy" {
+		return true
+	}
+	if e.name == "record" {
+		for _, op := range h {
+			if op == "Optional" || op == "Nilable" || op == "Nullish" {
+				return true
+			}
+		}
+	}
+	return false
+}
+
 var opNames = []string{"Optional", "Nilable", "Nullish", "NonOptional", "Default:v", "Default:i", "DefaultFunc:v", "DefaultFunc:i",
 	"Prefault:v", "Prefault:i", "PrefaultFunc:v", "PrefaultFunc:i", "Overwrite", "Refine"}
 
@@ -535,7 +552,7 @@ func runWrapped(o *hx.Out, e *entry, h []string, stack string) {
 		wbase = wrapSchema(e.mk(), stack)
 	})
 	hs := strings.Join(h, " ")
-	adm := hx.B01(e.admitsNil) + " " + hx.B01(e.name == "du" || e.name == "lazy")
+	adm := hx.B01(e.admitsNil) + " " + hx.B01(ownPath(e, h))
 	if pm != "" {
 		o.Emit(fmt.Sprintf("c03 wnil %s %s %s %s #%s build", e.rule, adm, stack, hs, e.name), "panic "+pm)
 		return
@@ -631,6 +648,7 @@ func main() {
 			}
 		}
 	}
+	runCtxClasses(o, r, es, c.Thorough())
 	if err := o.Close(map[string]any{"seed": c.Seed, "tier": c.Tier, "types": len(es), "histories": len(hist), "stacks": len(allStacks)}); err != nil {
 		fmt.Fprintln(os.Stderr, err)
 		os.Exit(3)
@@ -666,7 +684,7 @@ func runHistory(o *hx.Out, e *entry, h []string) bool {
 	if s == nil {
 		return false // the type has no such method: history not applicable
 	}
-	adm := hx.B01(e.admitsNil) + " " + hx.B01(e.name == "du" || e.name == "lazy")
+	adm := hx.B01(e.admitsNil) + " " + hx.B01(ownPath(e, h))
 	// nil and typed-nil inputs
 	base := e.mk()
 	inputs := []struct {
